@@ -4,7 +4,7 @@
 // judged against a reference written from its doc comment with nested loops:
 //
 //	setops/rand        random (s1, s2) over tiny alphabets, input aliasing modes, two dst layouts per function
-//	setops/small-*     every (s1, s2) over a 3-letter alphabet up to length 5 x every dst layout
+//	setops/small-*     every (s1, s2) over a 3-letter alphabet up to length 5 (thorough: 4 letters, length 6) x every dst layout
 //	bounds             SubSlice/Copy/Remove/Index/Equal/Chunk/ChunkProcess/Values over every boundary argument
 //	flex/mix           FlexSlice vs. plain-slice model, random grow/shrink phases
 //	flex/threshold     scripted walk across every shrink threshold with Prepend bursts on the capacity boundaries
@@ -21,6 +21,8 @@ func main() {
 	r.Assume("dst aliasing is exercised as the prefix [:0] (or [:k], [:0:0]) of an input; when s2 is itself a sub-slice of s1 starting behind s1[0], dst = s2[:0] is not used (a destination in the middle of the slice being read is not covered by the statement)")
 	r.Assume("Chunk/ChunkProcess: a piece is non-empty; for a chunk size below 1 only 'concatenation = input' is demanded; an error returned by the callback ends the iteration and is returned")
 	r.Assume("SubSlice/Copy clamping as documented: negative start counts as 0, negative or oversized end/length means 'to the end', an empty window is an empty result; for out-of-range Get/Remove/Pop/Shift only ok=false and an unchanged sequence are demanded")
+
+	r.Assume("flex/selfarg: the value of a variadic argument is its content at the time of the call, also when the caller passes a sub-slice of the exported f.Values (as append and slices.Insert guarantee)")
 
 	r.Cases("setops/rand", r.N(150000, 3000000), ev.Opt{HangViolation: true}, randSetCase)
 	small := smallScope{sym: 3, len1: 5, len2: 3}
